@@ -13,7 +13,10 @@
      "does_nothing"       copy / dns proxy type-switch on the concrete connection type and never match
    Model regression only: "returns_on_first_eof" - the relay is torn down as soon as ONE direction has ended, so a
    client that half-closes after its last request (and a backend that answers only then) gets no reply.
-   SSH units: each password attempt, each channel request and the channel data are units of the same two legs. *)
+   SSH units: each password attempt, each channel request and the channel data are units of the same two legs.
+   An ssh session's reply has a SECOND stream: what the command writes to its standard error travels as extended data
+   of the same channel (ErrOut); it is a FIFO leg of its own.  "stderr_not_relayed" (the code as found): the proxy never
+   reads it - nothing of it arrives (EverythingArrives fails; the safety invariants cannot see a stream that never moves). *)
 EXTENDS Integers, Sequences, FiniteSets, TLC
 
 CONSTANTS Backend, Others, Deviations
@@ -22,45 +25,58 @@ VARIABLES Requests,      \* the units the client sends, in order (fixed for a be
           Replies,       \* Replies[i]: the backend's answer to request i
           halfclose,     \* the client shuts down its sending side after its last request; the backend answers when it sees that
           sent, atBackend, answered, atClient, dialled,
-          shut           \* 0: open, 1: the client has shut down its sending side, 2: the backend has seen the end of the stream
-vars == <<Requests, Replies, halfclose, sent, atBackend, answered, atClient, dialled, shut>>
+          shut,          \* 0: open, 1: the client has shut down its sending side, 2: the backend has seen the end of the stream
+          ErrOut,        \* what the backend writes to the session's standard error, in order (fixed for a behaviour)
+          errWritten, errAtClient
+vars == <<Requests, Replies, halfclose, sent, atBackend, answered, atClient, dialled, shut, ErrOut, errWritten, errAtClient>>
 
-Init(rq, rp, hc) == /\ Requests = rq /\ Replies = rp /\ halfclose = hc /\ sent = 0 /\ atBackend = <<>> /\ answered = 0
-                    /\ atClient = <<>> /\ dialled = {} /\ shut = 0
+Init(rq, rp, hc, eo) == /\ Requests = rq /\ Replies = rp /\ halfclose = hc /\ sent = 0 /\ atBackend = <<>> /\ answered = 0
+                        /\ atClient = <<>> /\ dialled = {} /\ shut = 0 /\ ErrOut = eo /\ errWritten = 0 /\ errAtClient = <<>>
+ErrVars == <<ErrOut, errWritten, errAtClient>>
 
 Mangle(u) == IF "adds_header" \in Deviations /\ u.kind = "http" /\ ~u.hasUA THEN [u EXCEPT !.extraHeader = TRUE] ELSE u
 
 \* the client writes its next request (pipelining: without waiting for the previous reply)
 ClientSend == /\ sent < Len(Requests) /\ sent' = sent + 1
               /\ dialled' = dialled \cup {Backend}
-              /\ UNCHANGED <<Requests, Replies, halfclose, atBackend, answered, atClient, shut>>
+              /\ UNCHANGED <<Requests, Replies, halfclose, atBackend, answered, atClient, shut>> /\ UNCHANGED ErrVars
 
 \* the proxy forwards the next complete request
 Forward == /\ Len(atBackend) < sent /\ "does_nothing" \notin Deviations
            /\ ~("reader_per_message" \in Deviations /\ Len(atBackend) >= 1 /\ sent > Len(atBackend) + 1 /\ FALSE)
            /\ atBackend' = Append(atBackend, Mangle(Requests[Len(atBackend) + 1]))
-           /\ UNCHANGED <<Requests, Replies, halfclose, sent, answered, atClient, dialled, shut>>
+           /\ UNCHANGED <<Requests, Replies, halfclose, sent, answered, atClient, dialled, shut>> /\ UNCHANGED ErrVars
 
 \* the client has sent everything and shuts down its sending side; the proxy passes the end of stream on
 ClientShut == /\ halfclose /\ sent = Len(Requests) /\ shut = 0 /\ shut' = 1
-              /\ UNCHANGED <<Requests, Replies, halfclose, sent, atBackend, answered, atClient, dialled>>
+              /\ UNCHANGED <<Requests, Replies, halfclose, sent, atBackend, answered, atClient, dialled>> /\ UNCHANGED ErrVars
 ForwardShut == /\ shut = 1 /\ Len(atBackend) = sent /\ "does_nothing" \notin Deviations /\ shut' = 2
-               /\ UNCHANGED <<Requests, Replies, halfclose, sent, atBackend, answered, atClient, dialled>>
+               /\ UNCHANGED <<Requests, Replies, halfclose, sent, atBackend, answered, atClient, dialled>> /\ UNCHANGED ErrVars
 
 BackendReply == /\ answered < Len(atBackend) /\ (halfclose => shut = 2) /\ answered' = answered + 1
-                /\ UNCHANGED <<Requests, Replies, halfclose, sent, atBackend, atClient, dialled, shut>>
+                /\ UNCHANGED <<Requests, Replies, halfclose, sent, atBackend, atClient, dialled, shut>> /\ UNCHANGED ErrVars
 
 Back == /\ Len(atClient) < answered
         /\ ~("returns_on_first_eof" \in Deviations /\ shut = 2)
         /\ atClient' = Append(atClient, Replies[Len(atClient) + 1])
-        /\ UNCHANGED <<Requests, Replies, halfclose, sent, atBackend, answered, dialled, shut>>
+        /\ UNCHANGED <<Requests, Replies, halfclose, sent, atBackend, answered, dialled, shut>> /\ UNCHANGED ErrVars
 
-Next == ClientSend \/ Forward \/ ClientShut \/ ForwardShut \/ BackendReply \/ Back
+\* the second reply stream: the backend writes to the session's standard error once the session runs; the proxy relays it
+Main == <<Requests, Replies, halfclose, sent, atBackend, answered, atClient, dialled, shut>>
+BackendErr == /\ errWritten < Len(ErrOut) /\ Len(atBackend) = Len(Requests) /\ errWritten' = errWritten + 1
+              /\ UNCHANGED <<ErrOut, errAtClient>> /\ UNCHANGED Main
+BackErr == /\ Len(errAtClient) < errWritten /\ "stderr_not_relayed" \notin Deviations
+           /\ errAtClient' = Append(errAtClient, ErrOut[Len(errAtClient) + 1])
+           /\ UNCHANGED <<ErrOut, errWritten>> /\ UNCHANGED Main
+
+Next == ClientSend \/ Forward \/ ClientShut \/ ForwardShut \/ BackendReply \/ Back \/ BackendErr \/ BackErr
 Fairness == WF_vars(ClientSend) /\ WF_vars(Forward) /\ WF_vars(ClientShut) /\ WF_vars(ForwardShut) /\ WF_vars(BackendReply) /\ WF_vars(Back)
+            /\ WF_vars(BackendErr) /\ WF_vars(BackErr)
 
 \* ---- properties -------------------------------------------------------------------
 BackendSawExactlyClientSent == atBackend = SubSeq(Requests, 1, Len(atBackend))
 ClientSawExactlyBackendSent == atClient = SubSeq(Replies, 1, Len(atClient))
+ClientSawExactlyBackendErr == errAtClient = SubSeq(ErrOut, 1, Len(errAtClient))
 OnlyBackendDialled == dialled \subseteq {Backend}
-EverythingArrives == <>(Len(atBackend) = Len(Requests) /\ Len(atClient) = Len(Requests))
+EverythingArrives == <>(Len(atBackend) = Len(Requests) /\ Len(atClient) = Len(Requests) /\ Len(errAtClient) = Len(ErrOut))
 =============================================================================
